@@ -50,6 +50,7 @@ def cells(tier):
     # a roStorySend without storyBody (header-only send) may fail, but then nothing may have been touched
     only = lambda op, story_k, tk, sk, nk: True
     out += make_cells(PID, 'atomic', tier, N=3, ops=['roStorySend'], extra={'no_body': True}, suffix='no-storyBody')
+    out += make_cells(PID, 'atomic', tier, N=3, ops=['roStorySend'], extra={'empty_body': True}, suffix='empty-storyBody')
     # carried stories whose duration text cannot be parsed (blank <StoryDuration/>, "01:30"): whatever the merge
     # does with them, if it raises the running order is as before
     ins = lambda op, story_k, tk, sk, nk: tk in (None, 'existing') and nk in (['fresh', 'fresh'], ['fresh'])
